@@ -215,7 +215,7 @@ theorem thick_count {Lx Ly Lz : Nat} (hx : 4 ≤ Lx) (hy : 5 ≤ Ly) (hz : 5 ≤
   have h1 := cubes_count Lx Ly Lz
   have h2 := selTriangles_partition (Lx := Lx) (Ly := Ly) (Lz := Lz) (by omega) (by omega) hz
   have h3 := qubits_length_add Lx Ly Lz
-  have hq : qn Lx Ly Lz = (Lz - 5) / 2 := by unfold qn; rw [if_pos ⟨hx, by omega⟩]
+  have hq : qn Lx Ly Lz = (Lz - 5) / 2 := by unfold qn; rw [if_pos (Or.inl ⟨hx, by omega⟩)]
   rw [length_L3, length_L2, length_L1, length_L0, length_LB0, length_bx_tt, length_bx_tt, hq] at h2
   unfold rankFamily
   rw [List.length_append]
